@@ -342,3 +342,210 @@ theorem suffix_sep_inj {c : Char} (x x' y y' : Str) (hy : c ∉ y) (hy' : c ∉ 
   exact ⟨List.reverse_inj.mp this.2, List.reverse_inj.mp this.1⟩
 
 end LiquidVerif.CacheLoader
+
+/-! ## LRU: keys, other keys, no duplicates (deepening round) -/
+namespace LiquidVerif.CacheLoader
+
+def ckeys {τ} (l : List (Str × τ)) : List Str := l.map (·.1)
+
+theorem find_none_iff {τ} (l : List (Str × τ)) (k : Str) : find l k = none ↔ k ∉ ckeys l := by
+  induction l with
+  | nil => simp [find, ckeys]
+  | cons p r ih =>
+    obtain ⟨a, b⟩ := p
+    simp only [find, ckeys, List.map_cons, List.mem_cons, not_or]
+    by_cases e : a = k
+    · simp [e]
+    · simp only [e, if_false]
+      rw [ih]
+      exact ⟨fun h => ⟨fun h' => e h'.symm, h⟩, fun h => h.2⟩
+
+theorem find_eraseKey_ne {τ} (l : List (Str × τ)) {k x : Str} (h : x ≠ k) :
+    find (eraseKey l k) x = find l x := by
+  induction l with
+  | nil => rfl
+  | cons p r ih =>
+    obtain ⟨a, b⟩ := p
+    unfold eraseKey at *
+    by_cases e : a = k
+    · subst e
+      have : ¬ a = x := fun e' => h e'.symm
+      simp [List.filter, find, this]; simpa using ih
+    · simp only [List.filter, e, decide_false, Bool.not_false, find]
+      split
+      · rfl
+      · simpa using ih
+
+theorem find_getitem_other {τ} (c : Cache τ) {k x : Str} (h : x ≠ k) :
+    find (c.getitem k).1.items x = find c.items x := by
+  unfold Cache.getitem
+  cases hf : find c.items k with
+  | none => rfl
+  | some w =>
+    simp only [find_append_single, find_eraseKey_ne _ h]
+    cases find c.items x with
+    | some z => rfl
+    | none => simp [Ne.symm h]
+
+theorem find_mutate_other {τ} (c : Cache τ) {k x : Str} (v : τ) (h : x ≠ k) :
+    find (c.mutate k v).items x = find c.items x := by
+  unfold Cache.mutate
+  simp only
+  induction c.items with
+  | nil => rfl
+  | cons p r ih =>
+    obtain ⟨a, b⟩ := p
+    by_cases e : a = k
+    · subst e
+      have : ¬ a = x := fun e' => h e'.symm
+      simp [List.map, find, this, ih]
+    · simp only [List.map, e, if_false, find]
+      split
+      · rfl
+      · exact ih
+
+theorem ckeys_mutate {τ} (c : Cache τ) (k : Str) (v : τ) : ckeys (c.mutate k v).items = ckeys c.items := by
+  unfold Cache.mutate ckeys
+  simp only [List.map_map]
+  apply List.map_congr_left
+  intro p _
+  simp only [Function.comp]
+  split
+  · next e => exact e.symm
+  · rfl
+
+theorem nodup_ckeys_eraseKey {τ} {l : List (Str × τ)} (k : Str) (h : (ckeys l).Nodup) :
+    (ckeys (eraseKey l k)).Nodup := by
+  unfold ckeys eraseKey at *
+  exact (List.Sublist.map _ List.filter_sublist).nodup h
+
+theorem nodup_ckeys_append {τ} {l : List (Str × τ)} {k : Str} {v : τ} (h : (ckeys l).Nodup)
+    (hk : find l k = none) : (ckeys (l ++ [(k, v)])).Nodup := by
+  have hk' := (find_none_iff l k).mp hk
+  unfold ckeys at *
+  simp only [List.map_append, List.map_cons, List.map_nil]
+  rw [List.nodup_append]
+  refine ⟨h, by simp, ?_⟩
+  intro a ha b hb
+  simp only [List.mem_singleton] at hb
+  subst hb
+  intro e; subst e; exact hk' ha
+
+theorem nodup_ckeys_tail {τ} {l : List (Str × τ)} (h : (ckeys l).Nodup) : (ckeys l.tail).Nodup := by
+  cases l with
+  | nil => exact h
+  | cons p r => simp only [ckeys, List.map_cons, List.tail_cons] at *; exact (List.nodup_cons.mp h).2
+
+theorem nodup_getitem {τ} (c : Cache τ) (k : Str) (h : (ckeys c.items).Nodup) :
+    (ckeys (c.getitem k).1.items).Nodup := by
+  unfold Cache.getitem
+  cases hf : find c.items k with
+  | none => exact h
+  | some w => exact nodup_ckeys_append (nodup_ckeys_eraseKey k h) (find_eraseKey_self _ _)
+
+theorem nodup_setitem {τ} (c : Cache τ) (k : Str) (v : τ) (h : (ckeys c.items).Nodup) :
+    (ckeys (c.setitem k v).items).Nodup := by
+  unfold Cache.setitem
+  cases hf : find c.items k with
+  | some w => exact nodup_ckeys_append (nodup_ckeys_eraseKey k h) (find_eraseKey_self _ _)
+  | none =>
+    simp only
+    split
+    · exact nodup_ckeys_append (nodup_ckeys_tail h) (find_tail_none hf)
+    · exact nodup_ckeys_append h hf
+
+theorem find_tail_sub {τ} {l : List (Str × τ)} {x : Str} {w : τ} (hn : (ckeys l).Nodup)
+    (h : find l.tail x = some w) : find l x = some w := by
+  cases l with
+  | nil => simp [find] at h
+  | cons p r =>
+    obtain ⟨a, b⟩ := p
+    simp only [List.tail_cons] at h
+    have hmem : x ∈ ckeys r := by
+      have := find_some_mem h
+      exact List.mem_map_of_mem (f := (·.1)) this
+    have hax : ¬ a = x := by
+      simp only [ckeys, List.map_cons] at hn
+      intro e; subst e; exact (List.nodup_cons.mp hn).1 hmem
+    simp [find, hax, h]
+
+/-- an entry found under another key after a store was there before (it may have been evicted) -/
+theorem find_setitem_other_sub {τ} (c : Cache τ) (k : Str) (v : τ) {x : Str} {w : τ}
+    (hn : (ckeys c.items).Nodup) (hxk : x ≠ k) (hx : find (c.setitem k v).items x = some w) :
+    find c.items x = some w := by
+  unfold Cache.setitem at hx
+  have hkx : ¬ k = x := fun e => hxk e.symm
+  cases hf : find c.items k with
+  | some u =>
+    simp only [hf] at hx
+    rw [find_append_single, find_eraseKey_ne _ hxk] at hx
+    cases hfx : find c.items x with
+    | some z => rw [hfx] at hx; simpa using hx
+    | none => rw [hfx] at hx; simp [hkx] at hx
+  | none =>
+    simp only [hf] at hx
+    by_cases hge : c.items.length ≥ c.cap
+    · simp only [hge, if_true] at hx
+      rw [find_append_single] at hx
+      cases hft : find c.items.tail x with
+      | some z => rw [hft] at hx; simp at hx; subst hx; exact find_tail_sub hn hft
+      | none => rw [hft] at hx; simp [hkx] at hx
+    · simp only [hge, if_false] at hx
+      rw [find_append_single] at hx
+      cases hfx : find c.items x with
+      | some z => rw [hfx] at hx; simpa using hx
+      | none => rw [hfx] at hx; simp [hkx] at hx
+
+/-- below capacity a store leaves every other key alone -/
+theorem find_setitem_other_noevict {τ} (c : Cache τ) (k : Str) (v : τ) {x : Str} (hxk : x ≠ k)
+    (hlt : find c.items k = none → c.items.length < c.cap) :
+    find (c.setitem k v).items x = find c.items x := by
+  unfold Cache.setitem
+  have hkx : ¬ k = x := fun e => hxk e.symm
+  cases hf : find c.items k with
+  | some u =>
+    simp only [find_append_single, find_eraseKey_ne _ hxk]
+    cases find c.items x <;> simp [hkx]
+  | none =>
+    have : ¬ c.items.length ≥ c.cap := by have := hlt hf; omega
+    simp only [this, if_false, find_append_single]
+    cases find c.items x <;> simp [hkx]
+
+theorem mem_ckeys_getitem {τ} {c : Cache τ} {k x : Str} (h : x ∈ ckeys (c.getitem k).1.items) :
+    x ∈ ckeys c.items := by
+  unfold ckeys at *
+  obtain ⟨p, hp, e⟩ := List.mem_map.mp h
+  exact List.mem_map.mpr ⟨p, mem_getitem hp, e⟩
+
+theorem mem_ckeys_setitem {τ} {c : Cache τ} {k x : Str} {v : τ} (h : x ∈ ckeys (c.setitem k v).items) :
+    x = k ∨ x ∈ ckeys c.items := by
+  unfold ckeys at *
+  obtain ⟨p, hp, e⟩ := List.mem_map.mp h
+  rcases mem_setitem hp with h1 | h1
+  · left; rw [← e, h1]
+  · right; exact List.mem_map.mpr ⟨p, h1, e⟩
+
+/-- a duplicate-free list inside `K` is no longer than `K` -/
+theorem nodup_subset_length {α} [DecidableEq α] : ∀ (l K : List α), l.Nodup → (∀ x ∈ l, x ∈ K) → l.length ≤ K.length
+  | [], _, _, _ => by simp
+  | a :: l, K, hn, hs => by
+    have ha : a ∈ K := hs a List.mem_cons_self
+    have hn' := List.nodup_cons.mp hn
+    have := nodup_subset_length l (K.erase a) hn'.2 (by
+      intro x hx
+      have hxa : x ≠ a := fun e => hn'.1 (e ▸ hx)
+      exact (List.mem_erase_of_ne hxa).mpr (hs x (List.mem_cons_of_mem _ hx)))
+    rw [List.length_erase_of_mem ha] at this
+    have : 0 < K.length := List.length_pos_of_mem ha
+    simp only [List.length_cons]; omega
+
+theorem cap_getitem {τ} (c : Cache τ) (k : Str) : (c.getitem k).1.cap = c.cap := by
+  unfold Cache.getitem; cases find c.items k <;> rfl
+
+theorem cap_setitem {τ} (c : Cache τ) (k : Str) (v : τ) : (c.setitem k v).cap = c.cap := by
+  unfold Cache.setitem; cases find c.items k <;> rfl
+
+theorem getitem_none_eq {τ} (c : Cache τ) (k : Str) (h : find c.items k = none) : c.getitem k = (c, none) := by
+  unfold Cache.getitem; rw [h]
+
+end LiquidVerif.CacheLoader
